@@ -35,11 +35,16 @@ func record(n int, seed int64) {
 			}
 			// at most one blocking iterator: two waiters on one Deque cond busy-loop (DESIGN.md 3.3)
 			blocking = [][]bool{{true}, {false}, {true, false}, {false, false}}[rng.Intn(4)]
+			if rng.Intn(3) == 0 {
+				// fixed capacity: the adder uses it as a ring buffer (Force pushes evict at the near end)
+				trk, hard = "hard", 2+rng.Intn(2)
+			}
 		}
 		c, err := newCont(kind, dir, trk, hard, soft, credit)
 		if err != nil {
 			panic(err)
 		}
+		c.viaD = rng.Intn(2) == 0
 		rec := &rt.Recorder{}
 		blk, api := map[string]any{}, map[string]any{}
 		type itState struct {
@@ -129,13 +134,21 @@ func record(n int, seed int64) {
 			go func() {
 				defer clients.Done()
 				<-start
-				for j, m := 0, 1+r.Intn(5); j < m; j++ {
+				m := 1 + r.Intn(5)
+				if trk == "hard" {
+					m += 2 // enough to wrap around
+				}
+				for j := 0; j < m; j++ {
 					yield(r, 8)
 					mu.Lock()
 					v := fmt.Sprintf("v%d", nextID+1)
 					mu.Unlock()
 					v = v + "a" + fmt.Sprint(j) // distinct whatever ids interleave
-					do("add", v, func() string { return c.add(v) })
+					if trk == "hard" && r.Intn(3) > 0 {
+						do("fadd", v, func() string { return c.fadd(v) })
+					} else {
+						do("add", v, func() string { return c.add(v) })
+					}
 					// bursts: a second operation back to back, while the calls woken by the Add are on their way
 					switch {
 					case burst == 1 && j == m-1:
